@@ -9,4 +9,7 @@ import sys
 sys.path.insert(0, ".")
 from vlib import e2
 print("exporter:", e2.build())
+from vlib import slicer_tables
+d, w = slicer_tables.dump(0)   # warms the native build cache used by the C10 table dump
+print("slicer tables:", len(d))
 PY
